@@ -20,8 +20,27 @@ var noopPrefixes = []string{
 	"github.com/prometheus/",
 	"go.uber.org/zap",
 	"github.com/spf13/",
+	"github.com/maypok86/otter",
 	"github.com/IrineSistiana/mosproxy/internal/mlog",
 	"log.", "(*log.",
+}
+
+var redirects = map[string]string{
+	"context.WithCancel":       "CtxWithCancel",
+	"context.WithCancelCause":  "CtxWithCancelCause",
+	"context.WithTimeout":      "CtxWithTimeout",
+	"context.WithTimeoutCause": "CtxWithTimeoutCause",
+	"context.WithDeadline":     "CtxWithDeadline",
+	"context.Cause":            "CtxCause",
+}
+
+func isNoopPkg(p string) bool {
+	for _, pre := range noopPrefixes {
+		if strings.HasPrefix(p, pre) {
+			return true
+		}
+	}
+	return false
 }
 
 func ptrKey(p *Pointer) string {
